@@ -341,20 +341,37 @@ structure St (Q : Type) where
   fees : List Int
   sigs : List Nat
 
-/-- Release the dependants of a freshly selected transaction `j`. -/
+/-- Release the dependants of a freshly selected transaction `j`: every waiting item that lists `j`
+loses that dependency and is pushed once it has none left. -/
 def release {Q : Type} (ops : QueueOps Q) (byFee : Bool) (j : Nat) :
     List Item → Q → (List Item × Q)
   | [], q => ([], q)
   | it :: rest, q =>
     if it.dependsOn.contains j then
-      let it' := { it with dependsOn := it.dependsOn.filter (· ≠ j) }
-      if it'.dependsOn.isEmpty then release ops byFee j rest (ops.push byFee q it')
+      if (it.dependsOn.filter (· ≠ j)).isEmpty then
+        release ops byFee j rest (ops.push byFee q { it with dependsOn := it.dependsOn.filter (· ≠ j) })
       else
-        let (w, q') := release ops byFee j rest q
-        (it' :: w, q')
+        ({ it with dependsOn := it.dependsOn.filter (· ≠ j) } :: (release ops byFee j rest q).1,
+          (release ops byFee j rest q).2)
     else
-      let (w, q') := release ops byFee j rest q
-      (it :: w, q')
+      (it :: (release ops byFee j rest q).1, (release ops byFee j rest q).2)
+
+/-- The priority→fee switch: `sortedByFee = true; SetLessFunc(txPQByFee)` (re-heapify). -/
+def switchSt {Q : Type} (ops : QueueOps Q) (s : St Q) : St Q :=
+  { s with byFee := true, queue := ops.reinit true s.queue }
+
+/-- Add the transaction to the block: spend it into the view, update the running totals, release
+its dependants. -/
+def commitTx {Q : Type} (ops : QueueOps Q) (e : Env) (s : St Q) (it : Item) (t : Tx)
+    (bpw cost reserve : Nat) : St Q :=
+  let view := spendTx s.view it.idx t e.nextHeight
+  let r := release ops s.byFee it.idx s.waiting s.queue
+  { s with
+    queue := r.2, waiting := r.1, view := view,
+    blockWeight := bpw, sigCost := s.sigCost + cost,
+    totalFees := s.totalFees + it.fee,
+    witnessIncluded := s.witnessIncluded || (reserve != 0),
+    sel := s.sel ++ [it.idx], fees := s.fees ++ [it.fee], sigs := s.sigs ++ [cost] }
 
 /-- One iteration of the selection loop for the popped item `it` (queue already without it). -/
 def selectStep {Q : Type} (ops : QueueOps Q) (e : Env) (pool : List Tx) (s : St Q) (it : Item) : St Q :=
@@ -374,20 +391,12 @@ def selectStep {Q : Type} (ops : QueueOps Q) (e : Env) (pool : List Tx) (s : St 
         else if s.byFee && it.feePerKB < e.minFreeFee && bpw ≥ e.minWeight then s
         else
           let switch := !s.byFee && (bpw ≥ e.prioSize || it.prio ≤ MIN_HIGH_PRIORITY_BITS)
-          let s1 : St Q := if switch then { s with byFee := true, queue := ops.reinit true s.queue } else s
+          let s1 : St Q := if switch then switchSt ops s else s
           if switch && (bpw > e.prioSize || it.prio < MIN_HIGH_PRIORITY_BITS) then
             { s1 with queue := ops.push true s1.queue it }
           else if !checkInputs s1.view e t then s1
           else if !t.scriptsOk then s1
-          else
-            let view := spendTx s1.view it.idx t e.nextHeight
-            let (w, q) := release ops s1.byFee it.idx s1.waiting s1.queue
-            { s1 with
-              queue := q, waiting := w, view := view,
-              blockWeight := bpw, sigCost := s1.sigCost + cost,
-              totalFees := s1.totalFees + it.fee,
-              witnessIncluded := s1.witnessIncluded || (reserve != 0),
-              sel := s1.sel ++ [it.idx], fees := s1.fees ++ [it.fee], sigs := s1.sigs ++ [cost] }
+          else commitTx ops e s1 it t bpw cost reserve
 
 def selectLoop {Q : Type} (ops : QueueOps Q) (e : Env) (pool : List Tx) : Nat → St Q → St Q
   | 0, s => s
